@@ -355,6 +355,50 @@ func cmdCheck(args []string) int {
 				}
 			}
 		}
+		// constructors: a function under contract that returns the receiver
+		// type of one of the property's methods builds the state those
+		// methods run on (hsrv.New resolving the files directory once, at
+		// start-up, breaks C09 without touching fileHandler)
+		recvTypes := map[string]map[string]bool{} // package path -> type names
+		for k := range orig {
+			i := strings.Index(k, "\x00")
+			pth, name := k[:i], k[i+1:]
+			if j := strings.Index(name, "."); j > 0 {
+				if recvTypes[pth] == nil {
+					recvTypes[pth] = map[string]bool{}
+				}
+				recvTypes[pth][name[:j]] = true
+			}
+		}
+		for _, pth := range unitNames {
+			cu := w.Units[pth]
+			if cu.Specs == nil || recvTypes[pth] == nil {
+				continue
+			}
+			for _, cand := range cu.Specs.Funcs {
+				if cand.Trusted || have[cu.Pkg.PkgPath+"\x00"+cand.Name] || strings.Contains(cand.Name, "#") {
+					continue
+				}
+				fd := cu.Funcs[cand.Name]
+				if fd == nil || fd.Recv != nil || fd.Type.Results == nil {
+					continue
+				}
+				builds := false
+				for _, r := range fd.Type.Results.List {
+					if recvTypes[pth][recvTypeName(r.Type)] {
+						builds = true
+					}
+				}
+				if builds {
+					have[cu.Pkg.PkgPath+"\x00"+cand.Name] = true
+					helper[cu.Short+"."+cand.Name] = true
+					callers = append(callers, struct {
+						u    *Unit
+						name string
+					}{cu, cand.Name})
+				}
+			}
+		}
 		funcs = append(funcs, callers...)
 	}
 	kfs := loadKnownFindings()
